@@ -92,7 +92,7 @@ def run(ctx):
                       corr_module="Err.CorrReject", clause_names=CLAUSES, name="reject")
     core.generic_corr(ctx, overlay=ov, pkg="internal/target/remote", run="TestVerif_C16Remote", n=0,
                       corr_module="Err.RemoteCorr", clause_names=CLAUSES, name="remote_no_usable_mx")
-    ctx.coverage["rule"] = ("remote_no_usable_mx: every set of 1-3 MX candidates each of which is down (temporary) or has no "
+    ctx.coverage["rule"] = ("remote_no_usable_mx: MX lookups failing in six ways (no such name, SERVFAIL, time-out, unflagged, unparsable, plain error) and every set of 1-3 MX candidates each of which is down (temporary) or has no "
                             "address (permanent), exhaustively, through the real remote target; error trees of depth 1-4 over 8 constructors generated from VERIF_SEED: 70% well-annotated "
                             "stream, 30% malformed stream (annotation keys in field wrappers, class mismatches, odd codes); "
                             "non-trivial = model tag != 0 (well-annotated, annotated, temporary, deadline or unclassified bits), distinct by case text")
